@@ -89,7 +89,7 @@ Proof.
   destruct e; cbn [uses_array eff_cfg]; try (apply request_core_ref; assumption);
   unfold request_with_config; rewrite (request_core_ref E HE) by exact Hb;
   unfold req_result; cbn [q_method q_path q_version q_hdrs];
-  destruct (rq_status _); reflexivity.
+  (destruct (rq_status _) eqn:Es; try reflexivity; exfalso; exact (ref_request_no_fault _ _ _ _ Es)).
 Qed.
 
 Definition resp_call_result (e : entry) (cf : config) (buf : list N) (arr : list slot) (rp : response) : rp_res :=
@@ -108,7 +108,7 @@ Proof.
   destruct e; cbn [uses_array eff_cfg]; try (apply response_core_ref; assumption);
   unfold response_with_config; rewrite (response_core_ref E HE) by exact Hb;
   unfold resp_result; cbn [p_version p_code p_reason p_hdrs];
-  destruct (rp_status _); reflexivity.
+  (destruct (rp_status _) eqn:Es; try reflexivity; exfalso; exact (ref_response_no_fault _ _ _ _ Es)).
 Qed.
 End Top.
 
